@@ -2,6 +2,7 @@ package props
 
 import (
 	"fmt"
+	"go/token"
 	"sort"
 	"strings"
 
@@ -45,37 +46,68 @@ func (c *Ctx) processorFingerprint(fn *ssa.Function, writeName string) []string 
 		}
 		out = append(out, fmt.Sprintf("write(%s,%s,%s)", bucket, key, loop))
 	}
-	for _, i := range ssau.Ifs(fn) {
-		H := ssau.EnclosingLoopHeader(i.Block())
-		if H == nil || i.Block() == H {
+	// per-element filters, in a form that does not depend on how the branches are written (continue-guards,
+	// nested positive conditions, switch): a condition arm after which the element's write can no longer be
+	// reached, and what happens then (the loop goes on to the next element, or is left)
+	for _, w := range ssau.CallsIn(fn, namedCall(writeName)) {
+		H := ssau.EnclosingLoopHeader(w.Block())
+		if H == nil {
 			continue
 		}
-		if _, _, isNil := ssau.NilTest(i.Cond); isNil {
-			continue // error propagation
-		}
-		base, neg := ssau.StripNot(i.Cond)
 		body := ssau.LoopBody(H)
-		effect := func(arm bool) string {
-			b := ssau.Arm(i, arm != neg)
-			// follow straight jumps
-			for steps := 0; steps < 10; steps++ {
-				if b == H {
-					return "next"
+		canReach := func(from *ssa.BasicBlock, target func(*ssa.BasicBlock) bool) bool {
+			seen := map[*ssa.BasicBlock]bool{}
+			var walk func(x *ssa.BasicBlock) bool
+			walk = func(x *ssa.BasicBlock) bool {
+				if target(x) {
+					return true
 				}
-				if !body[b] {
-					return "leave"
+				if x == H || seen[x] || !body[x] {
+					return false
 				}
-				if len(b.Instrs) == 1 {
-					if _, ok := b.Instrs[0].(*ssa.Jump); ok {
-						b = b.Succs[0]
-						continue
+				seen[x] = true
+				for _, sx := range x.Succs {
+					if walk(sx) {
+						return true
 					}
 				}
-				break
+				return false
 			}
-			return "go-on"
+			return walk(from)
 		}
-		out = append(out, fmt.Sprintf("filter(%s: true->%s, false->%s)", ssau.CondString(base), effect(true), effect(false)))
+		toWrite := func(x *ssa.BasicBlock) bool { return x == w.Block() }
+		toHeader := func(x *ssa.BasicBlock) bool { return x == H }
+		for b := range body {
+			iff, ok := b.Instrs[len(b.Instrs)-1].(*ssa.If)
+			if !ok || b == H {
+				continue
+			}
+			if _, _, isNil := ssau.NilTest(iff.Cond); isNil {
+				continue // error propagation
+			}
+			base, neg := ssau.StripNot(iff.Cond)
+			for k := 0; k < 2; k++ {
+				a, o := b.Succs[k], b.Succs[1-k]
+				if canReach(a, toWrite) || !canReach(o, toWrite) {
+					continue
+				}
+				val := (k == 0) != neg
+				effect := "leave"
+				if canReach(a, toHeader) {
+					effect = "next"
+				}
+				cs := ssau.CondString(base)
+				// normalise the comparison operator: != is "== false", >= is "< false", > is "<= false"
+				if bo, ok := base.(*ssa.BinOp); ok {
+					flip := map[token.Token]token.Token{token.NEQ: token.EQL, token.GEQ: token.LSS, token.GTR: token.LEQ}
+					if to, ok := flip[bo.Op]; ok {
+						cs = "(" + ssau.CondString(bo.X) + to.String() + ssau.CondString(bo.Y) + ")"
+						val = !val
+					}
+				}
+				out = append(out, fmt.Sprintf("filter(%s==%v -> %s)", cs, val, effect))
+			}
+		}
 	}
 	// loop domains
 	for _, b := range fn.Blocks {
